@@ -29,9 +29,13 @@ def obs_both(c, precision='float64'):
     return out
 
 
-def obs_yaml(c, path=None, precision='float64'):
+def obs_yaml(c, path=None, precision='float64', cwd=None):
     """restart semantics: a pristine process loads the stored file itself and observes the model"""
     from pyrates import CircuitTemplate
+    if cwd:          # dotted template paths are resolved through Python's import system, relative to the working dir
+        import os, sys
+        os.chdir(cwd)
+        sys.path.insert(0, cwd)
     try:
         t = CircuitTemplate.from_yaml(path)
     except Exception as e:
@@ -84,3 +88,18 @@ def obs_op(c, op=None):
         return {'status': 'ok'}
     except Exception as e:
         return observe.raised(e)
+
+
+def obs_explicit_circuit(c, ops=None, nodes=None, edges=None, name='circ', precision='float64'):
+    """a small circuit written out explicitly through the Python classes (expectation for derived / multi-file YAML)"""
+    from pyrates import CircuitTemplate, NodeTemplate, OperatorTemplate
+    try:
+        ot = {k: OperatorTemplate(name=k, equations=list(v['eqs']), variables=dict(v['vars'])) for k, v in ops.items()}
+        nt = {}
+        for key, nd in nodes.items():
+            nt[key] = NodeTemplate(name=nd['name'], operators={ot[o]: dict(var) for o, var in nd['operators']})
+        t = CircuitTemplate(name=name, nodes=nt, edges=[(s, t_, None, dict(a)) for s, t_, a in (edges or [])])
+    except Exception as e:
+        r = observe.raised(e)
+        return {'scalar': r, 'vec_run': r}
+    return obs_both(t, precision)
